@@ -26,7 +26,7 @@ ASSUMPTIONS = [
 TECHNIQUE = 'property-based fault enumeration: generated edit histories with rejected calls, every position of the invalid element in multi-element arguments enumerated; before/after snapshot oracle plus differential replay without the rejected calls'
 LEVEL_TEXT = 'Fault enumeration over generated states: for each generated pre-state, rejected single calls are snapshot-compared, and for multi-element mutators every position k of the invalid element is enumerated. Exhaustive only over k, sampled over states.'
 BUDGET = {"quick": (16, 900), "thorough": (16, 16000)}
-PHASES = ["main", "excl"]
+PHASES = ["main"]
 EXCLUDED_OPS = []
 
 FAULT_KINDS = ["io_extend", "io_setslice", "g_extend", "g_insert_before", "g_insert_after", "g_remove",
@@ -46,7 +46,9 @@ def strategy(tier, phase):
     ).map(list)
     opst = st.one_of(U.op_strategy(names), U.op_strategy(names), fault)
     return st.fixed_dictionaries(
-        {"setup": st.integers(0, 1), "safe": st.just(phase == "excl"), "ops": st.lists(opst, min_size=1, max_size=max_ops)}
+        # safe=True always: the op variant of the C01 known finding (a graph input/initializer accepted as
+        # node output) produces states that already violate C01; atomicity is judged on consistent states.
+        {"setup": st.integers(0, 1), "safe": st.just(True), "ops": st.lists(opst, min_size=1, max_size=max_ops)}
     )
 
 
